@@ -6,10 +6,11 @@ from common import hx
 def check(ctx, stream, orig_frame, mutated, note):
     out = lanimpl.v2_decode(mutated)
     inp = {"frame": hx(orig_frame), "packet": hx(mutated), "note": note}
-    ok = (out == "err:protocol") or (out == hx(orig_frame))
+    ok = (out == "err:protocol")
     if not ok:
-        ctx.violate(stream, inp, out, "ProtocolError (or the original frame)",
-                    "altered / truncated packet was not rejected with a protocol error")
+        ctx.violate(stream, inp, out, "ProtocolError",
+                    "altered / truncated packet was not rejected with a protocol error"
+                    + (" (it was accepted as the original frame: the signature no longer covers the altered bytes)" if out == hx(orig_frame) else ""))
     return out, inp
 
 
@@ -51,7 +52,7 @@ def through_lan(ctx, rng, version, frame, mutated, note):
     out = result.get("out")
     stream = f"lan_v{version}"
     inp = {"frame": hx(frame), "packet": hx(mutated), "note": note, "version": version}
-    ok = out in ("err:protocol", "err:timeout") or (isinstance(out, list) and all(x == hx(frame) for x in out))
+    ok = out in ("err:protocol", "err:timeout") or (note == "unaltered" and isinstance(out, list) and all(x == hx(frame) for x in out))
     if not ok:
         ctx.violate(stream, inp, out, "protocol error / timeout, or only the original frame",
                     "an altered V2 packet delivered through a live connection produced a frame the device never sent")
@@ -64,6 +65,9 @@ def lan_streams(ctx, rng, thorough):
     for n in ((35,) if not thorough else (0, 16, 35, 100)):
         frame = bytes(rng.randrange(256) for _ in range(n))
         pkt = lan._Packet.encode(rng.randrange(2 ** 48), frame)
+        if ctx.driver:
+            # as a DEVICE builds it: all-zero timestamp and filler fields
+            pkt = bytes.fromhex(ctx.driver.ask(f"spec_v2_encode id={rng.randrange(2 ** 48)} ts={hx(bytes(8))} filler={hx(bytes(12))} frame={hx(frame)}"))
         for version in (2, 3):
             through_lan(ctx, rng, version, frame, pkt, "unaltered")
             for i in range(len(pkt)):
@@ -112,7 +116,8 @@ def run(ctx):
     lines, meta = [], []
     for n in lens:
         frame = bytes(rng.randrange(256) for _ in range(n))
-        ts = bytes(rng.randrange(256) for _ in range(8))
+        # real appliances often send an all-zero timestamp field (unset clock): half of the packets carry one
+        ts = bytes(rng.randrange(256) for _ in range(8)) if n % 2 else bytes(8)
         did = rng.randrange(2 ** 48)
         pkt = bytes.fromhex(ctx.driver.ask(f"spec_v2_encode id={did} ts={hx(ts)} filler={hx(bytes(12))} frame={hx(frame)}")) \
             if ctx.driver else None
